@@ -6,6 +6,7 @@ import (
 	"io"
 	"io/fs"
 	"math/rand"
+	"os"
 	"strconv"
 	"strings"
 
@@ -143,6 +144,9 @@ func (g *rtGen) checkFile(s *h.Session, st *h.Step, f rtFile, stage string) []st
 		msgs = append(msgs, fmt.Sprintf("%s: the size reported for %s is %d", stage, desc, size))
 	}
 	restored, rerr := s.SafeCat(f.name)
+	if rerr != nil && os.Getenv("VERIF_DEBUG") != "" {
+		fmt.Fprintf(os.Stderr, "DEBUG restore %s: %v\n", f.name, rerr)
+	}
 	switch {
 	case rerr != nil && f.n == 0:
 		msgs = append(msgs, fmt.Sprintf("%s: restoring %s through the archive interface fails: %s\x00only=only:emptyFileUnderCodec", stage, desc, h.ClassOf(rerr)))
